@@ -538,6 +538,12 @@ func matchKnown(open map[string]Known, sig string) (Known, bool) {
 	if k, ok := open[sig]; ok {
 		return k, true
 	}
+	// a listed signature ending in '*' names a cause whose consequences vary (prefix match)
+	for ks, k := range open {
+		if strings.HasSuffix(ks, "*") && strings.HasPrefix(sig, strings.TrimSuffix(ks, "*")) {
+			return k, true
+		}
+	}
 	return Known{}, false
 }
 
